@@ -1245,8 +1245,9 @@ class MemoryCache:
         try:
             self.refs[cache_key] = result
         except TypeError:
-            # primitives like ints, strs, and dicts can't be weakrefed
-            pass
+            # primitives like ints, strs, and dicts can't be weakrefed. Make sure a reference
+            # to a value stored earlier for this key does not outlive it.
+            self.refs.pop(cache_key, None)
 
     @_synchronized
     def put(self, memento: Memento, result: object, has_result: bool):
